@@ -274,10 +274,17 @@ func (r *runner) input(si int, st mbt.Step, viaWire bool) bool {
 		r.fail(si, action, "error", false, "prepare-peer-changed-state", "preparing the peer state changed the consensus state", nil, nil)
 		return false
 	}
-	chID, bz, err := e.concretise(m)
+	var chID byte
+	var bz []byte
+	if p, _ := mbt.Catch(func() { chID, bz, err = e.concretise(m) }); p != nil {
+		err = fmt.Errorf("%v", p)
+	}
 	if err != nil {
 		r.fail(si, action, "error", false, "concretise:"+m.key(), err.Error(), nil, nil)
 		return false
+	}
+	if m.Ch == "unknown" {
+		viaWire = true // an unknown channel never reaches a reactor: the connection itself decides
 	}
 	res, err := e.deliver(chID, bz, viaWire)
 	if err != nil {
@@ -425,6 +432,9 @@ func needsChild(tr mbt.Trace) (bool, string) {
 		if st.A == "Gossip" && strings.Contains(mbt.Str(st.Args[0]), "huge") {
 			return true, "gossip:" + mbt.Str(st.Args[0])
 		}
+		if st.A == "Other" {
+			return true, mbt.Str(st.Args[0]) + ":" + mbt.Str(st.Args[1])
+		}
 	}
 	return false, ""
 }
@@ -450,7 +460,8 @@ func runChild(ti int, tr mbt.Trace, key string, rep *mbt.Report) {
 	}
 	if err != nil {
 		es := stderr.String()
-		fatal := strings.Contains(es, "fatal error") || strings.Contains(es, "out of memory") || strings.Contains(es, "cannot allocate memory")
+		fatal := strings.Contains(es, "fatal error") || strings.Contains(es, "out of memory") || strings.Contains(es, "cannot allocate memory") ||
+			strings.Contains(es, "panic:") || strings.Contains(es, "[running]")
 		if len(es) > 3000 {
 			es = es[:3000]
 		}
@@ -481,7 +492,7 @@ func runChild(ti int, tr mbt.Trace, key string, rep *mbt.Report) {
 		}
 		if fatal {
 			rep.Fail(mbt.Failure{Trace: ti, TraceID: tr.ID, Step: len(tr.Steps) - 1, Action: "Input(" + key + ")", Kind: "panic", Property: true, Key: "crash:" + key,
-				Detail: fmt.Sprintf("the process died with an unrecoverable runtime error while handling the message (address space limited to %d GiB): %v\n%s", asLimit>>30, err, es)})
+				Detail: fmt.Sprintf("the process died while handling the message (unrecovered panic on a goroutine of the node, or a fatal runtime error; address space limited to %d GiB): %v\n%s", asLimit>>30, err, es)})
 		} else {
 			rep.Fail(mbt.Failure{Trace: ti, TraceID: tr.ID, Kind: "error", Property: false, Key: "child-died:" + key, Detail: fmt.Sprintf("child failed: %v\n%s", err, es)})
 		}
